@@ -5,7 +5,7 @@ in arrival order, array and newline-delimited framing; the OTLP decoder with its
 rules; onSpan with the 1 MiB flush) and the trace read path of the reader (Query order, OutputQuery stopping at the first
 undecodable row, parseZipkinJSON, parseOTLP) next to the order-free DEFINITION of what the statement demands.  TLC explores
 every body of the families of MC_Spans.tla, verifies (InvOutsideClasses) that the mechanism satisfies every clause outside
-five named candidate classes and exports every finished behaviour as a case: abstract body, demanded rows/read-back,
+the named candidate classes (one is left: an OTLP span with peer.service under a resource with service.name) and exports every finished behaviour as a case: abstract body, demanded rows/read-back,
 mechanism rows/read-back, broken clauses.  harness/cmd/c06 concretises every case into a real OTLP protobuf / Zipkin JSON
 body (hostile strings, real ids and epoch times), pushes it through the REAL writer routes into the store, reads it back
 through the REAL reader route (JSON and protobuf) and compares rows and spans with the definition (verdict) and with the
@@ -74,7 +74,7 @@ CONFIGS = {
     ],
 }
 # the plain statement on a small family: expected to give a counterexample (the candidate TLC shows)
-CANDIDATE = ('zbatch', dict(maxspans=2, own='{FALSE}', name='{TRUE}', mod=0),
+CANDIDATE = ('ogroups', dict(maxspans=2, gkinds='{0, 2}', gown='{FALSE}', mod=0),
              'InvRowCount InvOneTraceRow InvTraceRowFaithful InvTagRowsIdsTimes InvOneTagRowPerAttr InvNoForeignTagRow InvReadBack')
 
 REQUIRED_TRAITS = ['zipkin:array', 'zipkin:ndjson', 'otlp:pb', 'ts:number', 'ts:string', 'id:short', 'id:zero', 'id:max', 'id:full',
@@ -82,7 +82,7 @@ REQUIRED_TRAITS = ['zipkin:array', 'zipkin:ndjson', 'otlp:pb', 'ts:number', 'ts:
                    'spans:2', 'spans:3', 'big:1', 'big:2', 'flush:intermediate', 'attr:str', 'attr:int', 'attr:double', 'attr:bool',
                    'attr:list', 'attr:map', 'attr:nested', 'attr:empty-list', 'attr:peer.service', 'groups:2', 'scopes:2', 'scope:empty',
                    'resource:no-attributes', 'resource:service.name', 'parent:present', 'duration:zero']
-REQUIRED_ACTIONS = ['ZArrElem', 'ZNdLine', 'ZNdTooLong', 'ZKeyStep', 'ZSpanEnd', 'OSpan', 'Finish']
+REQUIRED_ACTIONS = ['ZArrElem', 'ZNdLine', 'ZKeyStep', 'ZSpanEnd', 'OSpan', 'Finish']
 
 _CASE = re.compile(r'^<<"C06CASE", (".*")>>$')
 
@@ -195,7 +195,7 @@ def run(tier):
                     seen.add((mc['family'], bid))
                     o.write(line)
                     total += 1
-                    if sample is None and mc['family'] == 'zbatch' and '"ndjson"' in line and '"flags": []' not in line:
+                    if sample is None and mc['family'] == 'ogroups' and '"flags": []' not in line:
                         sample = json.loads(line)
                 mc.pop('cases')
         if total == 0:
